@@ -1,12 +1,15 @@
 (* C14 -- polynomial evaluation agrees with exact evaluation in every basis: statements.
    Model: MPSV.Eval.EvalModel (definitions only).  Proofs: Eval/EvalExact.v, Eval/EvalRounded.v,
    Eval/EvalTwin.v, Eval/EvalBound.v, Eval/EvalSparse.v, Eval/EvalCheb.v, Eval/EvalSecPoly.v,
-   Eval/EvalChebEst.v. *)
+   Eval/EvalChebEst.v, Eval/EvalB64.v (model of the binary64 operations: Eval/EvalB64Model.v),
+   Eval/EvalTwinBounds.v. *)
 Require Import Reals List QArith.
 From Coquelicot Require Import Complex.
 Require Import MPSV.Eval.EvalModel MPSV.Eval.EvalExact MPSV.Eval.EvalRounded MPSV.Eval.EvalTwin.
 Require Import MPSV.Eval.EvalBound MPSV.Eval.EvalSparse MPSV.Eval.EvalCheb.
-Require Import MPSV.Eval.EvalSecPoly MPSV.Eval.EvalChebEst.
+Require Import MPSV.Eval.EvalSecPoly MPSV.Eval.EvalChebEst MPSV.Eval.EvalB64Model MPSV.Eval.EvalB64.
+Require Import MPSV.Eval.EvalTwinBounds MPSV.Eval.EvalB64Link.
+From Flocq Require Import Core IEEE754.BinarySingleNaN.
 Import ListNotations.
 Local Open Scope R_scope.
 
@@ -262,3 +265,108 @@ Proof. exact ex_sec_guard. Qed.
 Example C14_ex_sec_estimate :
   sec_poly_est_fl exact_arith exact_rarith 1 [(RtoC 1, RtoC 1); (RtoC 2, RtoC (-1))] (RtoC 3) = Some (RtoC 0, 28).
 Proof. exact ex_sec_estimate. Qed.
+
+(* ------------------------------------------------------------------ the double (f) variants: no rounding hypothesis *)
+
+(* cplx_add, cplx_sub, cplx_mul (4 products, 2 sums), cplx_inv (both branches of the |Re| > |Im| test) and
+   cplx_div = cplx_mul o cplx_inv of floating-point/mt.c AS CODED, every real operation rounded to nearest even with
+   53 bits (Flocq's round radix2 (FLX_exp 53) ZnearestE: IEEE binary64 as long as nothing overflows or underflows),
+   satisfy the standard model for ALL operands:  add/sub u, mul 3u, inv 7u, div 11u  (u = 2^-53). *)
+Theorem C14_b64_mul_error : forall a b : C, Cmod (b_mul a b - a * b)%C <= 3 * u64 * Cmod (a * b)%C.
+Proof. exact b_mul_err. Qed.
+Print Assumptions C14_b64_mul_error.
+
+Theorem C14_b64_inv_error : forall x : C, x <> RtoC 0 -> Cmod (b_inv x - / x)%C <= 7 * u64 * Cmod (/ x)%C.
+Proof. exact b_inv_err. Qed.
+Print Assumptions C14_b64_inv_error.
+
+Theorem C14_b64_div_error : forall a b : C, b <> RtoC 0 -> Cmod (b_div a b - a / b)%C <= 11 * u64 * Cmod (a / b)%C.
+Proof. exact b_div_err. Qed.
+Print Assumptions C14_b64_div_error.
+
+Theorem C14_b64_std_model : std_model (3 * u64) b64_arith_nodiv /\ std_model (11 * u64) b64_arith.
+Proof. split; [exact b64_nodiv_std_model|exact b64_std_model]. Qed.
+Print Assumptions C14_b64_std_model.
+
+(* mps_fhorner in binary64: unconditional (mu = 3u; Horner never divides) *)
+Theorem C14_b64_horner_apriori : forall (l : list C) (x : C), l <> [] ->
+  Cmod (horner_fl b64_arith l x - hornerC l x)%C
+    <= ((1 + 3 * u64) ^ (2 * (length l - 1)) - 1) * habs l (Cmod x).
+Proof. exact b64_horner_apriori. Qed.
+Print Assumptions C14_b64_horner_apriori.
+
+Theorem C14_b64_horner_apriori_linear : forall (l : list C) (x : C), l <> [] ->
+  INR (2 * (length l - 1)) * (3 * u64) <= 1 / 10 ->
+  Cmod (horner_fl b64_arith l x - hornerC l x)%C
+    <= 20 / 9 * INR (length l - 1) * (3 * u64) * habs l (Cmod x).
+Proof. exact b64_horner_apriori_linear. Qed.
+Print Assumptions C14_b64_horner_apriori_linear.
+
+(* mps_secular_poly_feval_with_error in binary64: unconditional (mu = 11u because of cplx_div); this is the
+   right-hand side the check uses for the double variant *)
+Theorem C14_b64_secular_poly_apriori_linear : forall (ab : list (C * C)) (x : C), all_ne ab x ->
+  INR (3 * length ab + 4) * (11 * u64) <= 1 / 10 ->
+  exists p, sec_poly_fl b64_arith ab x = Some p /\
+    Cmod (p - sec_poly_exact ab x)%C
+      <= 10 / 9 * (INR (3 * length ab + 4) * (11 * u64)) * ((sec_abs ab x + 1) * Cmod (sec_prodC ab x)).
+Proof. exact b64_secular_poly_apriori_linear. Qed.
+Print Assumptions C14_b64_secular_poly_apriori_linear.
+
+(* the side condition of the linear forms holds for every count below 10^12 *)
+Example C14_ex_b64_linear_range : forall k : nat, INR k <= 10 ^ 12 -> INR k * (11 * u64) <= 1 / 10.
+Proof. exact b64_linear_range. Qed.
+(* the two branches of cplx_inv are both reachable: 1/(2+i) takes the first, 1/(1+2i) the second *)
+Example C14_ex_b64_inv_branches :
+  (exists d, b_inv (2, 1) = (d, rn (- d * rn (1 / 2)))) /\ (exists d, b_inv (1, 2) = (rn (d * rn (1 / 2)), - d)).
+Proof. exact ex_b64_inv_branches. Qed.
+
+(* The rounding operator rn of the binary64 model IS the IEEE-754 operation (Flocq's Bplus/Bminus/Bmult/Bdiv on
+   binary_float 53 1024, round to nearest even) on finite operands whenever the exact result does not underflow
+   (|.| >= 2^-1022) and the rounded one does not overflow: result value equal and finite. *)
+Theorem C14_b64_ops_are_ieee : forall x y : b64, is_finite x = true -> is_finite y = true ->
+  (bpow radix2 (-1022) <= Rabs (B2R x + B2R y) -> Rabs (rn (B2R x + B2R y)) < bpow radix2 1024 ->
+     B2R (b64_plus x y) = rn (B2R x + B2R y) /\ is_finite (b64_plus x y) = true) /\
+  (bpow radix2 (-1022) <= Rabs (B2R x - B2R y) -> Rabs (rn (B2R x - B2R y)) < bpow radix2 1024 ->
+     B2R (b64_minus x y) = rn (B2R x - B2R y) /\ is_finite (b64_minus x y) = true) /\
+  (bpow radix2 (-1022) <= Rabs (B2R x * B2R y) -> Rabs (rn (B2R x * B2R y)) < bpow radix2 1024 ->
+     B2R (b64_mult x y) = rn (B2R x * B2R y) /\ is_finite (b64_mult x y) = true) /\
+  (B2R y <> 0 -> bpow radix2 (-1022) <= Rabs (B2R x / B2R y) -> Rabs (rn (B2R x / B2R y)) < bpow radix2 1024 ->
+     B2R (b64_div x y) = rn (B2R x / B2R y) /\ is_finite (b64_div x y) = true).
+Proof. exact b64_ops_are_ieee. Qed.
+Print Assumptions C14_b64_ops_are_ieee.
+
+(* ------------------------------------------------------------------ the twin's quantities, Chebyshev and secular *)
+
+(* What bin/eval prints for a Chebyshev input is the specification value sum c_k T_k(x) and an UPPER BOUND of the
+   condition quantity sum |c_k| T~_k(|x|) of C14_chebrec_apriori (all roundings qsqrt_up/qup included). *)
+Theorem C14_twin_cheb_value : forall (cs : list QC) (x : QC),
+  QC2C (fst (eval_cheb_q cs x)) = chebC (map QC2C cs) (QC2C x).
+Proof. exact twin_cheb_value. Qed.
+Print Assumptions C14_twin_cheb_value.
+
+Theorem C14_twin_cheb_bound : forall (cs : list QC) (x : QC),
+  chebabs_R (map QC2C cs) (Cmod (QC2C x)) <= Q2R (snd (eval_cheb_q cs x)).
+Proof. exact twin_cheb_bound. Qed.
+Print Assumptions C14_twin_cheb_bound.
+
+(* ... and for a secular input: S(x), P(x) = -S(x) prod(x-b_i) are the specification values, the third
+   component is an upper bound of (sum|a_i|/|x-b_i| + 1) prod|x-b_i| (the condition quantity of
+   C14_secular_poly_apriori), and "POLE" is printed exactly when x is one of the b_i. *)
+Theorem C14_twin_sec : forall (ab : list (QC * QC)) (x s p : QC) (bnd : Q),
+  eval_sec_q ab x = Some (s, p, bnd) ->
+  all_ne (map QC2C2 ab) (QC2C x) /\
+  QC2C s = sec_exact (map QC2C2 ab) (QC2C x) /\
+  QC2C p = sec_poly_exact (map QC2C2 ab) (QC2C x) /\
+  (sec_abs (map QC2C2 ab) (QC2C x) + 1) * Cmod (sec_prodC (map QC2C2 ab) (QC2C x)) <= Q2R bnd.
+Proof. exact twin_sec. Qed.
+Print Assumptions C14_twin_sec.
+
+Theorem C14_twin_sec_pole : forall (ab : list (QC * QC)) (x : QC),
+  eval_sec_q ab x = None <-> Exists (fun p => QC2C x = snd p) (map QC2C2 ab).
+Proof. exact twin_sec_pole. Qed.
+Print Assumptions C14_twin_sec_pole.
+
+(* the twin on 1/(x-1) + 2/(x+1) - 1 at x = 3: S = 0, P = 0 *)
+Example C14_ex_twin_sec : exists bnd, eval_sec_q [((1, 0, 1%positive), (1, 0, 1%positive)); ((2, 0, 1%positive), (-1, 0, 1%positive))]%Z (3, 0, 1%positive)%Z
+  = Some ((0, 0, 1%positive)%Z, (0, 0, 1%positive)%Z, bnd).
+Proof. eexists. vm_compute. reflexivity. Qed.
